@@ -146,8 +146,9 @@ static void evzk(const char *name, int k, int n, va_list ap){
     va_list aq; va_copy(aq, ap);
     for (i = 0; i < n && i < MAXARGS; i++) a[i] = va_arg(aq, long);
     va_end(aq);
-    if (k > 0 && k <= n && a[k - 1] == 0) return;
-    idle[me] = 0;   /* got a thread: no longer idle (SchedRun follows) */
+    /* dropped: an idle worker's attempt that returned nothing and (queue events) left an empty queue */
+    if (k > 0 && k <= n && a[k - 1] == 0 && a[n - 1] == 0) return;
+    if (k > 0 && k <= n && a[k - 1] != 0) idle[me] = 0;   /* got a thread: no longer idle (SchedRun follows) */
   }
   log_ev(name, n, ap);
 }
@@ -303,12 +304,17 @@ __attribute__((weak)) void myth_verif_fpoint(const char *label){ (void)label; }
 __attribute__((weak)) void myth_verif_fspin(const char *label){ (void)label; }
 
 /* ---------- watchdog ---------- */
-static pthread_t wd_thread; static volatile int wd_run = 0;
+static pthread_t wd_thread; static volatile int wd_run = 0; static volatile int post = 0; static volatile long post_ticks = 0;
 static void *watchdog(void *arg){
   long last = -1; int still = 0; (void)arg;
   while (wd_run){
     usleep(100000);
-    if (!started) { still = 0; continue; }
+    if (!started) {
+      still = 0;
+      /* after the trace is closed the rest of the run (finalisation) is not serialized; it must still end */
+      if (post && O.watchdog_s > 0 && ++post_ticks >= O.watchdog_s * 10){ fprintf(stderr, "VRT: HANG after the trace was closed\n"); _exit(6); }
+      continue;
+    }
     if (activity == last){ if (++still >= O.watchdog_s * 10) verdict("HANG", 5); }
     else { still = 0; last = activity; }
   }
@@ -334,7 +340,7 @@ void vrt_install_crash_handlers(void){
 
 void vrt_arm(const vrt_opts *o, const void *main_desc){
   int i;
-  O = *o; NW = O.nworkers; if (NW > MAXW) NW = MAXW;
+  O = *o; NW = O.nworkers; if (NW > MAXW) NW = MAXW; post = 0;
   rng = (unsigned long long)O.seed * 2654435761ULL + 88172645463325252ULL; for (i = 0; i < 8; i++) rnd();
   for (i = 0; i < NW; i++){ sem_init(&sem[i], 0, 0); idle[i] = 0; }
   for (i = 0; i < NS_MAX; i++){ ids[i].n = 0; nalias[i] = 0; }
@@ -355,6 +361,7 @@ void vrt_disarm(void){
   int i, self = me;
   if (!armed) return;
   myth_verif_ev("Disarm", 0);
+  post_ticks = 0; post = 1;
   started = 0; armed = 0; __sync_synchronize();
   for (i = 0; i < NW; i++) if (i != self) sem_post(&sem[i]);
   if (getenv("VRT_VERBOSE")) fprintf(stderr, "VRT: points=%ld switches=%ld events=%ld\n", npoints, nswitch, nev);
